@@ -167,7 +167,18 @@ Lemma gen_parse_wire_opt : forall raw r off,
   | NoFuel => go_Request_parseWireOPT (opts_fuel raw) r (Z.of_N off) = None
   end.
 Proof.
-  intros raw r off Hraw R. unfold pw_opt, go_Request_parseWireOPT. rewrite Hraw. cbv zeta.
+  intros raw r off Hraw R.
+  (* the receiver is taken apart FIRST: the four record updates in front of the walk then reduce to one
+     constructor over variables each (call by value); substituting the nested updates into each other
+     with [cbv zeta] on an opaque receiver is 21^4 copies of it *)
+  destruct r as [r_raw r_id r_flags r_qtype r_qclass r_nameOff r_nameLen r_qend r_hasOPT r_udp r_do r_ver
+                 r_ecs r_nsid r_ka r_coff r_clen r_rt r_msg r_ran r_pol].
+  cbn [T_Request_raw] in Hraw. subst r_raw.
+  unfold pw_opt, go_Request_parseWireOPT.
+  cbv beta iota zeta delta [T_Request_raw T_Request_id T_Request_flags T_Request_qtype T_Request_qclass
+    T_Request_nameOff T_Request_nameLen T_Request_questionEnd T_Request_hasOPT T_Request_udpSize T_Request_do
+    T_Request_version T_Request_hasECS T_Request_hasNSID T_Request_hasKeepalive T_Request_cookieOff
+    T_Request_cookieLen T_Request_readTime T_Request_msg T_Request_ednsRan T_Request_ecsPolicy].
   unfold po_fixed, dns_TypeOPT, po_do_mask.
   norm11. rewrite go_len_blen, ltb_of_N, !go_idx_byte_at. rewrite !be16_slice' by lia.
   destruct ((blen raw <? off + 11) || negb (byte_at raw off =? 0)) eqn:G1; [eexists; reflexivity|].
